@@ -99,6 +99,16 @@ impl<T: Bits> Bits for Decomposition<T> {
         format!("{} {}", self.low.bits(), self.high.bits())
     }
 }
+impl<T: Bits> Bits for signalo_filters::mean::mean_variance::Output<T> {
+    fn bits(&self) -> String {
+        format!("{} {}", self.mean.bits(), self.variance.bits())
+    }
+}
+impl<T: Bits> Bits for signalo_filters::mean::exp::mean_variance::Output<T> {
+    fn bits(&self) -> String {
+        format!("{} {}", self.mean.bits(), self.variance.bits())
+    }
+}
 pub fn bits_list<'a, T: Bits + 'a, I: Iterator<Item = &'a T>>(it: I) -> String {
     let v: Vec<String> = it.map(|x| x.bits()).collect();
     if v.is_empty() { "-".to_string() } else { v.join(" ") }
